@@ -54,4 +54,10 @@ CHECKS = {
         "text": "For all pairs of the 10 arithmetic reps and a ratio grid straddling each rep's 2147-threshold and maximum (including magnitudes no type can hold and irrational ratios), is_convertible / is_constructible / overload resolution / common_type are asked inside static_asserts against the documented predicate, so a wrong answer and a hard error are both observed; copy-initialisation, unit-only .as/.in and mixed comparison/addition are probed for accept/reject; every permitted integral conversion is then executed for all representable x in [-2147, 2147] and compared with x*k.",
         "note": "Trusted: the predicate as written in the property statement (vf/props/c06.py::permitted), gcc/clang diagnostic attribution (each disagreement re-compiled alone). Totality is a compile-time fact: observed on the compiler's execution, not inside an Au execution.",
     },
+    "C01": {
+        "module": ("vf.props.c01", "C01"), "engine": "planeC",
+        "technique": "compile-outcome monitoring: generated one-line probes per (unit pair, operation), diagnostics attributed per probe, same-dimension controls, isolation re-check",
+        "text": "For sampled (thorough: all) pairs of dimension classes drawn from the library units and generated compound units, every operation named in the property is compiled as its own probe and must be rejected; the same operation text with same-dimension operands and permitted reps must be accepted; trait questions are asked inside static_asserts so both a wrong answer and a hard error are seen. Run under two (thorough: six) compiler/standard configurations.",
+        "note": "The rejection half is a compile-time fact and is observed on the compiler's execution over the real headers, not inside an Au execution. Dimensions come from the library's reified leaves + the exact model.",
+    },
 }
